@@ -310,9 +310,9 @@ def check(ctx):
            "__exit__ does not decrement the reference count exactly once on every path")
     clears = [n for n in g.nodes if slot_store(n, ext, slot) == "reset"]
     okc = False
+    from engine.flow import guard_atoms
     for c in clears:
-        for t, tr in dominating_guards(an, ext, c):
-            e = t.ast
+        for e, tr, t in guard_atoms(an, ext, c):
             if isinstance(e, ast.Compare) and len(e.ops) == 1 and as_counter(ext, e.left, t) and isinstance(e.comparators[0], ast.Constant):
                 c0, op = e.comparators[0].value, e.ops[0]
                 if c0 == 0 and ((tr and isinstance(op, (ast.Eq, ast.LtE))) or ((not tr) and isinstance(op, (ast.NotEq, ast.Gt)))):
